@@ -91,6 +91,10 @@ type c17Case struct {
 	// ExtraEnv: VFLOW_* variables that name no scalar setting (the list-valued sflow-type-filter, unknown keys,
 	// near misses): they must not influence how any other setting is resolved
 	ExtraEnv map[string]string `json:"extra_env,omitempty"`
+	// BadFile: indexes (into the table) of settings the case does not otherwise use, given in the file with a value of
+	// the wrong type (a number for a switch, a list for a number or a text): whatever becomes of THAT setting, every
+	// other setting of the file still counts
+	BadFile []int `json:"bad_file,omitempty"`
 }
 
 const c17Rule = "case = 1..8 settings from the 45-entry table (yaml key, flag name, VFLOW_* variable, kind, default; transcribed from docs/config.md and NewOptions), each given by a random non-empty subset of " +
@@ -147,6 +151,13 @@ func genC17(t *rapid.T) c17Case {
 	}
 	if rapid.IntRange(0, 3).Draw(t, "withfilter") == 0 {
 		c.Filter = rapid.SliceOfN(rapid.OneOf(rapid.Uint32Range(0, 5), rapid.Uint32()), 1, 12).Draw(t, "filter")
+	}
+	if rapid.IntRange(0, 3).Draw(t, "withbadfile") == 0 {
+		for _, idx := range perm[n:] {
+			if len(c.BadFile) < 2 && rapid.Bool().Draw(t, "badthis") {
+				c.BadFile = append(c.BadFile, idx)
+			}
+		}
 	}
 	if rapid.IntRange(0, 2).Draw(t, "withextraenv") == 0 {
 		c.ExtraEnv = map[string]string{}
@@ -227,6 +238,28 @@ func runC17(c *c17Case) (v verdict, sig string, err error) {
 			want[s.Field] = best
 		}
 	}
+	skipAssert := map[string]bool{}
+	for _, idx := range c.BadFile {
+		if idx < 0 || idx >= len(c17Table) {
+			return v, "", fmt.Errorf("bad case: bad_file index")
+		}
+		s := c17Table[idx]
+		for _, k := range c.Keys {
+			if k.Idx == idx {
+				return v, "", fmt.Errorf("bad case: bad_file names a setting the case uses")
+			}
+		}
+		switch s.Kind {
+		case "bool":
+			cfg = append(cfg, s.Key+": 7")
+		case "int":
+			cfg = append(cfg, s.Key+": [1, 2]")
+		default:
+			cfg = append(cfg, s.Key+": [a, b]")
+		}
+		skipAssert[s.Field] = true
+		v.label(true, "ill-typed-sibling-in-file")
+	}
 	for k, val := range c.ExtraEnv {
 		if _, clash := req.Env[k]; clash || !strings.HasPrefix(strings.ToUpper(k), "VFLOW") {
 			return v, "", fmt.Errorf("bad case: extra environment variable %q", k)
@@ -296,6 +329,9 @@ func runC17(c *c17Case) (v verdict, sig string, err error) {
 		return v, "", fmt.Errorf("harness: driver error: %s", resp.Error)
 	}
 	for _, s := range c17Table {
+		if skipAssert[s.Field] {
+			continue
+		}
 		got, ok := resp.Options[s.Field]
 		if !ok {
 			return v, "missing", fmt.Errorf("setting %s (%s) is not part of the effective options", s.Key, s.Field)
